@@ -599,3 +599,248 @@ Proof.
     rewrite <- EU in *. apply (jw_undos _ _ jr); [rewrite EU; discriminate | apply (undo_of_junc c); exact U2 | exact R3|].
     rewrite <- (map_length eblk), pop_n_app. destruct below; [exact I | symmetry; exact Hbelow].
 Qed.
+
+(* ================================================================== the junction and the consumer of c05_resume_partial *)
+
+Lemma fast_no_undo s hd sg c : good_seg sg -> Forall (fun e => estep e <> SUndo) (from_cursor_fast s hd sg c).
+Proof.
+  intros G. destruct (c05_fast_path_shape_proof s hd sg c G) as (-> & _). apply Forall_forall. intros e He.
+  apply in_map_iff in He as (x & <- & _). unfold fast_event, fast_step. cbn [estep].
+  destruct (final_now s x); [destruct (not_held c x)|]; discriminate.
+Qed.
+
+Lemma good_split_nums sg A x B : good_seg sg -> sg = A ++ x :: B ->
+  (forall y, In y A -> snum y < snum x) /\ (forall y, In y B -> snum x < snum y).
+Proof.
+  intros G ->. destruct (Proofs.C09_Proofs.StronglySorted_split seg_lt A x B (gs_inc _ G)) as [HA HB].
+  pose proof (gs_std _ G) as Hstd. rewrite Forall_forall in Hstd.
+  assert (Hx : seg_std x) by (apply Hstd; apply in_or_app; right; left; reflexivity).
+  split; intros y Hy.
+  - apply snum_lt_of; [apply Hstd; apply in_or_app; left; exact Hy | exact Hx | apply HA; exact Hy].
+  - apply snum_lt_of; [exact Hx | apply Hstd; apply in_or_app; right; right; exact Hy | apply HB; exact Hy].
+Qed.
+
+(* what the consumer holds of the chain above the cursor LIB ends with the junction *)
+Lemma held_last sg lo xj hi jc : good_seg sg -> sg = lo ++ xj :: hi ->
+  rn (cu_blk jc) = snum xj -> is_undo jc = false ->
+  held_seg jc sg = [] \/ exists A, held_seg jc sg = A ++ [xj].
+Proof.
+  intros G Esg Hn Hu. destruct (good_split_nums sg lo xj hi G Esg) as [Hlo Hhi]. rewrite Esg. unfold held_seg.
+  rewrite filter_app. cbn [filter].
+  assert (Ehi : filter (fun x => above_clib jc x && negb (not_held jc x)) hi = []).
+  { apply filter_none. intros y Hy. specialize (Hhi y Hy). unfold not_held. rewrite Hn.
+    replace (snum xj <? snum y) with true by (symmetry; apply N.ltb_lt; exact Hhi). cbn [orb negb]. apply andb_false_r. }
+  rewrite Ehi.
+  assert (Exj : negb (not_held jc xj) = true).
+  { unfold not_held. rewrite Hn, Hu, N.ltb_irrefl. reflexivity. }
+  rewrite Exj, andb_true_r. destruct (above_clib jc xj) eqn:Eab.
+  - right. eexists. reflexivity.
+  - left. rewrite app_nil_r. apply filter_none. intros y Hy. specialize (Hlo y Hy).
+    destruct (above_clib jc y) eqn:Ey; [|reflexivity]. rewrite (above_mono jc y xj Hlo Ey) in Eab. discriminate.
+Qed.
+
+Lemma c04_burst_junction_consumer_proof : C04_burst_junction_consumer.
+Proof.
+  intros s hd sg c path j je P evs W HC Hbout B Hf jc HP E fuel.
+  destruct (from_cursor_cases s hd sg c evs W HC E) as (_ & _ & Hfork).
+  destruct (Hfork Hbout) as (_ & Hall). destruct (Hall path j B) as (je' & Hf' & ->).
+  rewrite Hf in Hf'. injection Hf' as <-. fold jc.
+  destruct (head_chain_good s hd sg W HC) as (G & Hst & _).
+  set (jr := mkR j (bnum (eb je))) in *.
+  destruct (undo_events_facts hd c jr (undos_of c path)) as (U1 & U2 & U3).
+  destruct (junction_facts s hd sg _ path j je W HC B Hf) as (xj & Hxj & Hxi & Hsent & Ejr & _).
+  fold jr in Ejr.
+  pose proof (fast_no_undo s hd sg jc G) as R3.
+  destruct (undos_of c path) as [|u0 us] eqn:EU; [cbn [map app]; apply jw_no_undo; exact R3|].
+  rewrite <- EU in *.
+  assert (Estack : rev (P ++ map seg_blk (held_seg jc sg) ++ map seg_blk (rev (undos_of c path))) =
+                   map eblk (map (Spec.C05_Spec.undo_event hd c jr) (undos_of c path)) ++
+                   rev (map seg_blk (held_seg jc sg)) ++ rev P).
+  { rewrite U3, !rev_app_distr, map_rev, rev_involutive, app_assoc. reflexivity. }
+  rewrite Estack. apply (jw_undos _ _ jr); [rewrite EU; discriminate | apply (undo_of_junc c); exact U2 | exact R3|].
+  rewrite <- (map_length eblk), pop_n_app.
+  apply in_split in Hxj as (lo & hi & Esg).
+  assert (Hn : rn (cu_blk jc) = snum xj).
+  { unfold jc, junction_cursor. cbn [cu_blk]. rewrite Ejr. cbn [bref rn]. pose proof (gs_std _ G) as Hstd. rewrite Forall_forall in Hstd.
+    destruct (Hstd xj) as [_ Hs]; [rewrite Esg; apply in_or_app; right; left; reflexivity|]. rewrite Hs. reflexivity. }
+  destruct (held_last sg lo xj hi jc G Esg Hn eq_refl) as [Eh|(A & Eh)].
+  - rewrite Eh. cbn [map rev app]. destruct (HP Eh) as [->|(P' & ->)]; [exact I|].
+    rewrite rev_app_distr. cbn [rev app]. unfold jr, bref. f_equal. symmetry. exact (find_key _ _ _ Hf).
+  - rewrite Eh, map_app, rev_app_distr. cbn [map rev app]. exact Ejr.
+Qed.
+
+(* ================================================================== SourceThroughCursor *)
+
+Lemma filter_rev' {A} (f : A -> bool) l : filter f (rev l) = rev (filter f l).
+Proof.
+  induction l as [|x l IH]; [reflexivity|]. cbn [rev filter]. rewrite filter_app, IH. cbn [filter].
+  destruct (f x); [reflexivity | apply app_nil_r].
+Qed.
+
+Lemma filter_len {A} (f : A -> bool) l : (length (filter f l) <= length l)%nat.
+Proof. induction l as [|x l IH]; [apply le_n|]. cbn [filter]. destruct (f x); cbn [length]; lia. Qed.
+
+(* the cursor's own branch from `start`, as blocks: when start is at or below the junction it ends with the junction and
+   the branch that is then undone; otherwise it is part of that branch *)
+Lemma own_blocks start c lo xj path :
+  (forall y, In y lo -> snum y < snum xj) ->
+  (forall y, In y path -> bnum (seg_blk xj) < bnum (seg_blk y)) ->
+  seg_std xj -> sid xj <> ri (cu_blk c) ->
+  let own := filter (through_keep start c) (lo ++ xj :: rev path) in
+  (start <= bnum (seg_blk xj) -> own = filter (through_keep start c) lo ++ xj :: rev (undos_of c path)) /\
+  (bnum (seg_blk xj) < start -> (forall y, In y lo -> seg_std y) -> (length own <= length (undos_of c path))%nat).
+Proof.
+  intros Hlo Hpath Hxs Hne own.
+  assert (Ekeep : forall y, through_keep start c y = from_start start y && negb (already c y)).
+  { intros y. unfold through_keep, already. rewrite is_undo_already, (andb_comm (step_eqb _ _)). reflexivity. }
+  assert (Erp : filter (through_keep start c) (rev path) = filter (from_start start) (rev (undos_of c path))).
+  { unfold undos_of. rewrite <- filter_rev', <- filter_and. apply filter_ext. intros y. rewrite Ekeep. apply andb_comm. }
+  unfold own. rewrite filter_app. cbn [filter]. rewrite Erp. split.
+  - intros Hle.
+    assert (Ex : through_keep start c xj = true).
+    { unfold through_keep, from_start. replace (start <=? bnum (seg_blk xj)) with true by (symmetry; apply N.leb_le; exact Hle).
+      replace (sid xj =? ri (cu_blk c)) with false by (symmetry; apply N.eqb_neq; exact Hne). rewrite andb_false_r. reflexivity. }
+    rewrite Ex. f_equal. f_equal. apply filter_all. intros y Hy. apply in_rev in Hy.
+    unfold undos_of in Hy. apply filter_In in Hy as [Hy _]. specialize (Hpath y Hy). unfold from_start. apply N.leb_le. lia.
+  - intros Hlt Hstd.
+    assert (Ex : through_keep start c xj = false).
+    { unfold through_keep, from_start. replace (start <=? bnum (seg_blk xj)) with false by (symmetry; apply N.leb_gt; exact Hlt). reflexivity. }
+    rewrite Ex. rewrite (filter_none _ lo); [|].
+    + cbn [app]. etransitivity; [apply filter_len|]. rewrite rev_length. apply le_n.
+    + intros y Hy. unfold through_keep, from_start. destruct Hxs as [_ Hxn]. destruct (Hstd y Hy) as [_ Hyn]. specialize (Hlo y Hy).
+      replace (start <=? bnum (seg_blk y)) with false by (symmetry; apply N.leb_gt; lia). reflexivity.
+Qed.
+
+Lemma c04_burst_through_proof : C04_burst_through.
+Proof.
+  intros s hd sg start c evs W HC HA Hhyps E.
+  destruct (c05_hub_through_proof s start c) as (T1 & _ & T3).
+  destruct (N.lt_ge_cases (rn (cu_blk c)) start) as [Hlt|Hge].
+  { (* the cursor block is below start: a plain snapshot *)
+    rewrite (T1 Hlt) in E. destruct (c04_burst_from_num_proof s hd sg start evs W HC HA E) as (H1 & H2 & H3 & H4).
+    exists [], [], evs, ref_empty. cbn [app]. split; [reflexivity|]. split; [exact H1|]. split; [constructor|].
+    split; [constructor|]. split; [left; reflexivity|]. split; [eapply Forall_impl; [|exact H2]; cbn beta; tauto|].
+    split; [congruence|]. split; [exact H3|]. intros fuel. apply H4. }
+  rewrite (T3 Hge) in E.
+  pose proof HC as (Hl & Hh & Eseg). destruct (head_chain_good s hd sg W HC) as (G & Hst & _).
+  assert (Hsw : starts_within sg start).
+  { destruct (c05_through_no_source_proof s start c) as (_ & _ & N3 & N4 & _). destruct sg as [|s0 r].
+    - exfalso. rewrite (N3 hd Hh Eseg) in E. discriminate.
+    - cbn [starts_within]. destruct (N.le_gt_cases (bnum (seg_blk s0)) start) as [H|H]; [exact H|]. exfalso.
+      pose proof (gs_std _ G) as Hstd. apply Forall_inv in Hstd. destruct Hstd as [_ Hn].
+      rewrite (N4 hd s0 r Hh Eseg) in E; [discriminate | lia]. }
+  destruct (block_in (ri (cu_blk c)) sg) eqn:Hbin.
+  { (* the cursor block is on the chain: the snapshot from start *)
+    destruct (c05_through_on_chain_proof s hd sg start c W HC Hbin Hsw) as (Eb & (lo & Esg & _) & _).
+    cbv zeta in Eb. rewrite Eb in E. injection E as <-.
+    destruct (snap_run s hd sg W HC HA lo _ Esg) as (H1 & H2 & H3 & H4).
+    exists [], [], (map (snap_event s hd) (filter (from_start start) sg)), ref_empty. cbn [app].
+    split; [reflexivity|]. split; [exact H1|]. split; [constructor|].
+    split; [constructor|]. split; [left; reflexivity|]. split; [eapply Forall_impl; [|exact H2]; cbn beta; tauto|].
+    split; [congruence|]. split; [exact H4|]. intros fuel. apply jw_no_undo. exact H3. }
+  (* the cursor block is off the chain *)
+  destruct (Hhyps eq_refl Hge) as (HLn & Hle & Hnum & Hjl).
+  destruct (c05_through_forked_proof s hd sg start c W HC Hsw Hbin Hnum)
+    as (csg & reach & Ec & Gc & Stc & _ & _ & _ & Z1 & Z2 & Z3 & _ & Hmain).
+  assert (Hcsg : exists c0 crest, csg = c0 :: crest).
+  { destruct csg as [|c0 crest]; [rewrite (Z1 eq_refl) in E; discriminate | eauto]. }
+  destruct Hcsg as (c0 & crest & Ecsg).
+  destruct reach; [|rewrite (Z2 eq_refl) in E; discriminate].
+  destruct (N.le_gt_cases (bnum (seg_blk c0)) start) as [Hc0|Hc0]; [|rewrite (Z3 c0 crest Ecsg Hc0) in E; discriminate].
+  destruct (Hmain eq_refl c0 crest Ecsg Hc0 Hge) as (Eb & _ & _). cbv zeta in Eb. rewrite Eb in E.
+  destruct (blocks_from_cursor s c) as [evs'| | |] eqn:Efc; try discriminate. injection E as <-.
+  destruct (from_cursor_cases s hd sg c evs' W HC Efc) as (Hlin & _ & Hfork).
+  destruct (Hfork Hbin) as ((path & j & B) & Hall). destruct (Hall path j B) as (je & Hf & ->).
+  set (jr := mkR j (bnum (eb je))). set (jc := junction_cursor hd c jr).
+  destruct (lib_elem s hd sg c W HC HLn Hlin) as (xc & Hxc & Hci & Hcn).
+  destruct (fast_rest s hd sg W HC HA jc xc Hxc Hci Hcn Hle) as (R1 & R2 & R3 & R4).
+  destruct (undo_events_facts hd c jr (undos_of c path)) as (U1 & U2 & U3).
+  destruct (through_forked_structure s hd sg c csg true path j W HC Hnum Ec B) as (lo & xj & hi & Esg & Hxi & Hfj & Ecs).
+  rewrite Hf in Hfj. injection Hfj as Eje.
+  pose proof (gs_std _ G) as Hstd. rewrite Forall_forall in Hstd.
+  assert (Hxj : In xj sg) by (rewrite Esg; apply in_or_app; right; left; reflexivity).
+  pose proof (Hstd xj Hxj) as Hxjs.
+  assert (Ejr : jr = bref (seg_blk xj)).
+  { unfold jr. rewrite (std_bref xj Hxjs), Hxi, Eje. destruct Hxjs as [_ ->]. reflexivity. }
+  destruct (good_split_nums sg lo xj hi G Esg) as [Hlo Hhi].
+  assert (Hjn : rn (cu_lib c) <= snum xj).
+  { specialize (Hjl path j je B Hf). rewrite Eje in Hjl. destruct Hxjs as [_ ->]. exact Hjl. }
+  (* the cursor LIB block is on the cursor's own segment *)
+  assert (Hxc_lo : In xc (lo ++ [xj])).
+  { rewrite Esg in Hxc. apply in_app_iff in Hxc as [Hxc|[Hxc|Hxc]];
+      [apply in_or_app; left; exact Hxc | apply in_or_app; right; left; exact Hxc|].
+    specialize (Hhi xc Hxc). lia. }
+  assert (Hxc_csg : In xc csg).
+  { rewrite Ecs. apply in_app_iff in Hxc_lo as [H|[H|[]]]; apply in_or_app; [left; exact H | right; left; exact H]. }
+  destruct (anchor csg (cu_lib c) xc Gc Hxc_csg Hci Hcn) as [Exc Hanc].
+  assert (Hoff : forall x, In x sg -> sid x <> ri (cu_blk c)).
+  { intros x Hx Hs. assert (block_in (ri (cu_blk c)) sg = true) by (apply block_in_spec; eauto). congruence. }
+  set (kept := filter (through_keep start c) csg).
+  set (own := map (through_event hd c) kept).
+  assert (Hown : forall e, In e own -> exists x, In x csg /\ through_keep start c x = true /\ e = through_event hd c x).
+  { intros e He. apply in_map_iff in He as (x & <- & Hx). apply filter_In in Hx as [Hx Hk]. eauto. }
+  assert (Hoall : forall e, In e own -> capped_by (cu_lib c) e /\ ehead e = bref hd /\ (estep e = SNew \/ estep e = SNewIrr)).
+  { intros e He. destruct (Hown e He) as (x & Hx & _ & ->). apply through_capped. apply Hanc. exact Hx. }
+  assert (O1 : heads hd own) by (apply Forall_forall; intros e He; apply (Hoall e He)).
+  assert (O2 : Forall (capped_by (cu_lib c)) own) by (apply Forall_forall; intros e He; apply (Hoall e He)).
+  assert (O3 : Forall (fun e => estep e = SNew \/ estep e = SNewIrr) own) by (apply Forall_forall; intros e He; apply (Hoall e He)).
+  assert (OS : StronglySorted blt_ev own) by (apply good_seg_sorted_blk; [exact Gc | reflexivity]).
+  (* when a block at or below the cursor LIB is delivered, the cursor LIB block is *)
+  assert (Hxc_own : forall e, In e own -> bnum (eblk e) <= rn (cu_lib c) -> In (through_event hd c xc) own).
+  { intros e He Hb. destruct (Hown e He) as (x & Hx & Hk & ->). cbn [through_event eblk] in Hb.
+    apply in_map. apply filter_In. split; [exact Hxc_csg|]. unfold through_keep in *. apply andb_true_iff in Hk as [Hk _].
+    unfold from_start in *. apply N.leb_le in Hk.
+    pose proof (gs_std _ Gc) as Hstdc. rewrite Forall_forall in Hstdc. destruct (Hstdc xc Hxc_csg) as [_ Hxcn].
+    replace (start <=? bnum (seg_blk xc)) with true by (symmetry; apply N.leb_le; lia).
+    replace (sid xc =? ri (cu_blk c)) with false by (symmetry; apply N.eqb_neq; apply Hoff; exact Hxc).
+    rewrite andb_false_r. reflexivity. }
+  assert (Ook : cursors_ok (Some (bref hd)) None 0 own = true).
+  { apply (capped_run_ok hd (cu_lib c)); [exact O1 | exact O2 | exact OS | intros; lia | |].
+    - intros e1 e2 He1 _ Hb _. exists (through_event hd c xc). split; [apply (Hxc_own e1 He1 Hb) | exact Exc].
+    - intros e l _ _. split; [left; reflexivity | lia]. }
+  assert (Oexit : own = [] \/ (ck_last None own = Some (cu_lib c) /\ ck_lib 0 own = rn (cu_lib c))).
+  { destruct own as [|e0 own'] eqn:Eown; [left; reflexivity|]. right. rewrite <- Eown in *.
+    apply (capped_run_exit (cu_lib c)); [exact O2 | exact OS|].
+    assert (He0 : In e0 own) by (rewrite Eown; left; reflexivity).
+    destruct (N.le_gt_cases (bnum (eblk e0)) (rn (cu_lib c))) as [Hb|Hb].
+    - exists (through_event hd c xc). split; [apply (Hxc_own e0 He0 Hb) | right; exact Exc].
+    - exists e0. split; [exact He0 | left; exact Hb]. }
+  exists own, (map (Spec.C05_Spec.undo_event hd c jr) (undos_of c path)), (from_cursor_fast s hd sg jc), jr.
+  split; [reflexivity|].
+  split; [apply Forall_app; split; [exact O1|]; apply Forall_app; split; assumption|].
+  split; [exact O2|]. split; [exact U2|].
+  split.
+  { right. exists path, j, xj. split; [exact B|]. split; [exact Hxj|]. split; [exact Hxi|]. split; [exact Ejr|]. split; [|exact U3].
+    destruct (branch_last _ _ _ _ _ B) as (pre & u & Ep & Hu). exists pre, u. split; [exact Ep|].
+    destruct Hxjs as [Hi _]. rewrite <- Hi, Hxi. exact Hu. }
+  split; [eapply Forall_impl; [|exact R2]; cbn beta; tauto|].
+  split; [intros _; eapply Forall_impl; [|exact R2]; cbn beta; tauto|].
+  split.
+  { rewrite cursors_ok_app, Ook. cbn [andb].
+    destruct Oexit as [->|[-> ->]].
+    - cbn [ck_last ck_lib]. apply (undos_then hd c jr); auto; lia.
+    - apply (undos_then hd c jr); auto; lia. }
+  (* the junction walk of a consumer that holds nothing *)
+  intros fuel. apply jw_push; [exact O3|]. intros fuel'. rewrite app_nil_r.
+  destruct (undos_of c path) as [|u0 us] eqn:EU; [cbn [map app]; apply jw_no_undo; exact R3|].
+  rewrite <- EU in *. apply (jw_undos _ _ jr); [rewrite EU; discriminate | apply (undo_of_junc c); exact U2 | exact R3|].
+  rewrite map_length.
+  assert (Eblk : map eblk own = map seg_blk kept) by (unfold own; rewrite map_map; reflexivity).
+  rewrite Eblk.
+  assert (Hpathnum : forall y, In y path -> bnum (seg_blk xj) < bnum (seg_blk y)).
+  { intros y Hy. pose proof (gs_inc _ Gc) as HSc. rewrite Ecs in HSc.
+    destruct (Proofs.C09_Proofs.StronglySorted_split seg_lt lo xj (rev path) HSc) as [_ HB]. apply HB. apply in_rev in Hy. exact Hy. }
+  destruct (own_blocks start c lo xj path Hlo Hpathnum Hxjs (Hoff xj Hxj)) as [OA OB].
+  destruct (N.le_gt_cases start (bnum (seg_blk xj))) as [Hsj|Hsj].
+  - unfold kept. rewrite Ecs, (OA Hsj), map_app. cbn [map]. rewrite rev_app_distr. cbn [rev].
+    rewrite map_rev, rev_involutive, <- app_assoc. cbn [app].
+    rewrite <- (map_length seg_blk (undos_of c path)), pop_n_app. exact Ejr.
+  - rewrite pop_n_short; [exact I|]. rewrite rev_length, map_length. unfold kept. rewrite Ecs. apply (OB Hsj).
+    intros y Hy. apply Hstd. rewrite Esg. apply in_or_app. left. exact Hy.
+Qed.
+
+Lemma c04_burst_cursors_proof : C04_burst_cursors.
+Proof.
+  split; [exact c04_cursors_ok_sound_proof|]. split; [exact c04_burst_from_num_proof|].
+  split; [exact c04_burst_from_cursor_proof|]. split; [exact c04_burst_junction_consumer_proof | exact c04_burst_through_proof].
+Qed.
